@@ -65,6 +65,17 @@ class MB:
     a: Optional[MA] = None
 
 
+@dataclass
+class Folder:
+    owner: "Owner"
+
+
+@dataclass
+class Owner:
+    uid: int
+    home: Optional[Folder] = None
+
+
 M_int = make_dataclass("M", [("a", int)])
 M_str = make_dataclass("M", [("a", str)])
 NT_M = NewType("NT_M", M_int)
@@ -93,6 +104,7 @@ POOL = [
     ("Rec", Rec),
     ("MA<->MB", MA),
     ("MB<->MA", MB),
+    ("Folder->Owner", Folder),
     ("BadField", BadField),
     ("G[int]", G[int]),
     ("G[bool]", G[bool]),
@@ -103,9 +115,11 @@ POOL_IDX = {name: i for i, (name, _) in enumerate(POOL)}
 
 LOAD_DATA = [0, False, 1, True, "a", [1], [True], ["a"], {"k": 0}, {"k": False}, {"a": 1}, {"a": "x"}, {"g": 1}, {"g": True},
              None, {"v": 1, "children": [{"v": 2, "children": []}]},
-             {"x": 1, "b": {"y": 2, "a": {"x": 3, "b": {"y": 4, "a": None}}}}, {"y": 1, "a": {"x": 2, "b": {"y": 3, "a": {"x": 4}}}}]
+             {"x": 1, "b": {"y": 2, "a": {"x": 3, "b": {"y": 4, "a": None}}}}, {"y": 1, "a": {"x": 2, "b": {"y": 3, "a": {"x": 4}}}},
+             {"owner": {"uid": 1, "home": {"owner": {"uid": 2, "home": {"owner": {"uid": 3, "home": None}}}}}}]
 DUMP_VALUES = [0, False, 1, True, "a", [1], [True], {"k": 0}, {"k": True}, M_int(1), M_str("x"), G(1), G(True),
-               Rec(1, [Rec(2, [])]), None, MA(1, MB(2, MA(3, MB(4)))), MB(1, MA(2, MB(3, MA(4))))]
+               Rec(1, [Rec(2, [])]), None, MA(1, MB(2, MA(3, MB(4)))), MB(1, MA(2, MB(3, MA(4)))),
+               Folder(Owner(1, Folder(Owner(2, Folder(Owner(3))))))]
 
 EXT_PROVIDERS = {
     "loader(int,+1)": lambda: loader(int, lambda d: d + 1 if type(d) is int else d),
@@ -132,7 +146,7 @@ def operations():
     ops = []
     for name, _ in POOL:
         ops.append(("get_loader", name))
-    for name in ("Literal[0,1]", "Literal[False,True]", "List[int]", "Union[int,str]", "M(a:int)", "M(a:str)", "Rec", "MA<->MB",
+    for name in ("Literal[0,1]", "Literal[False,True]", "List[int]", "Union[int,str]", "M(a:int)", "M(a:str)", "Rec", "MA<->MB", "Folder->Owner",
                  "BadField", "G[int]", "G[bool]", "Annotated[int,1]", "Dict[str,Literal[False,True]]"):
         ops.append(("get_dumper", name))
     ops += [("load", "Literal[False,True]", 3), ("load", "Literal[0,1]", 3), ("load", "M(a:int)", 11), ("load", "Rec", 4),
@@ -149,7 +163,7 @@ SHARED_KEY_OPS = [
     ("get_loader", "Literal[0,1]"), ("get_loader", "Literal[False,True]"), ("get_loader", "Optional[Literal[False]]"),
     ("get_loader", "Dict[str,Literal[0,1]]"), ("get_loader", "List[int]"), ("get_loader", "List[bool]"),
     ("get_loader", "M(a:int)"), ("get_loader", "M(a:str)"), ("get_loader", "G[bool]"), ("get_loader", "G[int]"),
-    ("get_loader", "Annotated[int,True]"), ("get_loader", "BadField"), ("get_dumper", "M(a:str)"), ("get_loader", "MA<->MB"),
+    ("get_loader", "Annotated[int,True]"), ("get_loader", "BadField"), ("get_dumper", "M(a:str)"), ("get_loader", "MA<->MB"), ("get_loader", "Folder->Owner"), ("get_dumper", "Folder->Owner"),
     ("replace", "strict_coercion", False), ("extend", "loader(int,+1)"), ("filler",),
 ]
 
